@@ -153,10 +153,10 @@ NoTrivialAnd(c) ==
             /\ c.gates[i].a \notin ConstWires(c)
             /\ c.gates[i].b \notin ConstWires(c)
 
-NoDupAnd(c) ==
-    \A i, j \in 1..Len(c.gates) :
-        (i < j /\ c.gates[i].op = "and" /\ c.gates[j].op = "and")
-            => {c.gates[i].a, c.gates[i].b} # {c.gates[j].a, c.gates[j].b}
-
 AndCount(c) == Cardinality({i \in 1..Len(c.gates) : c.gates[i].op = "and"})
+
+NoDupAnd(c) ==
+    Cardinality({ {c.gates[i].a, c.gates[i].b} : i \in {j \in 1..Len(c.gates) : c.gates[j].op = "and"} })
+        = AndCount(c)
+
 =============================================================================
